@@ -38,10 +38,18 @@ func validHello(r *vh.Rng, st int) []byte {
 	case 7:
 		return helloMsg(r, "aborted", "", "")
 	case 8:
-		return helloMsg(r, "ready", vh.Pick(r, waitingValues), "")
+		return helloMsg(r, "ready", pickWaiting(r), "")
 	default:
-		return helloMsg(r, "pending", vh.Pick(r, waitingValues), "")
+		return helloMsg(r, "pending", pickWaiting(r), "")
 	}
+}
+
+// half the time one of the plain classes (>= 30 s, 1..30 s, < 1 s), else any of the odd values
+func pickWaiting(r *vh.Rng) string {
+	if r.Bool() {
+		return vh.Pick(r, []string{"60000", "30000", "29999", "15000", "1000", "999", "500"})
+	}
+	return vh.Pick(r, waitingValues)
 }
 
 func anyHello(r *vh.Rng) []byte {
